@@ -19,3 +19,7 @@ pub fn all(_include_full: bool) -> Vec<ConfigEntry> {
     v.extend(cfgm3::entries());
     v
 }
+
+pub fn pad() -> Vec<ConfigEntry> {
+    Vec::new()
+}
